@@ -24,7 +24,8 @@ impl<T: Write> WritePrinter<T> {
     fn print_as_is(&mut self, s: &str) -> std::io::Result<usize> {
         self.writer.write_all(s.as_bytes())?;
         // the text is on the device now, even if flushing fails
-        self.last_column += s.len();
+        // (a column is a character: CHR$(200) is one column, two bytes on the device)
+        self.last_column += s.chars().count();
         self.writer.flush()?;
         Ok(s.len())
     }
